@@ -576,6 +576,8 @@ def check_wire(msg, offset, expect=None):
 # ---------------------------------------------------------------- recheck
 def recheck(case):
     m = case["mode"]
+    if m == "origin-limit":
+        return origin_limit_case(case)[0]
     if m == "text":
         return check_text([bytes(l) for l in case["labels"]], case.get("level", 2))
     if m == "parse":
@@ -931,7 +933,64 @@ def w_wire_long(task, col):
     col.nontrivial(("wire-long",))
 
 
-WORKERS = {"text1": w_text1, "textk": w_textk, "textpool": w_textpool, "parse": w_parse, "parse_short": w_parse_short,
+def origin_limit_case(case):
+    """to_wire / to_digestable of a relative name with an origin: the result is the encoding
+    of a *name*, so it obeys the 255-octet limit (or the call raises), in both spellings
+    (returning bytes, writing to a file)."""
+    import io
+    rel = dns.name.Name([b"x" * l for l in case["rel"]])
+    org = dns.name.Name([b"o" * l for l in case["org"]] + [b""])
+    total = sum(l + 1 for l in case["rel"]) + sum(l + 1 for l in case["org"]) + 1
+    probs = []
+    outs = {}
+    for how in ("bytes", "file", "digestable"):
+        try:
+            if how == "bytes":
+                outs[how] = rel.to_wire(origin=org)
+            elif how == "file":
+                f = io.BytesIO()
+                rel.to_wire(f, None, org)
+                outs[how] = f.getvalue()
+            else:
+                outs[how] = rel.to_digestable(org)
+        except dns.name.NameTooLong:
+            outs[how] = "NameTooLong"
+        except Exception as e:
+            outs[how] = "crash:" + crash_sig(e)
+    for how, o in outs.items():
+        if isinstance(o, bytes):
+            if len(o) > 255:
+                probs.append(("C01/to_wire-origin/over-255-octets/" + how,
+                              "relative name %s + origin %s encodes to %d octets via %s without raising" % (case["rel"], case["org"], len(o), how)))
+            elif total <= 255 and len(o) != total:
+                probs.append(("C01/to_wire-origin/wrong-length/" + how, "%d octets, expected %d" % (len(o), total)))
+        elif o.startswith("crash"):
+            probs.append(("C01/to_wire-origin/" + o, "relative %s origin %s" % (case["rel"], case["org"])))
+        elif total <= 255:
+            probs.append(("C01/to_wire-origin/legal-name-refused/" + how, "total %d octets refused" % total))
+    return probs, "|".join("%s=%s" % (k, v if isinstance(v, str) else "ok") for k, v in sorted(outs.items()))
+
+
+def w_origin_limit(task, col):
+    # relative part: k labels of 62 octets + one filler label; origin: one or two labels
+    for nfull in (0, 1, 2, 3):
+        for filler in range(1, 63, 5):
+            for org in ((8,), (63,), (30, 30), (63, 63)):
+                relp = [62] * nfull + [filler]
+                total = sum(l + 1 for l in relp) + sum(l + 1 for l in org) + 1
+                if not 240 <= total <= 270:
+                    continue
+                case = {"mode": "origin-limit", "rel": relp, "org": list(org)}
+                probs, label = origin_limit_case(case)
+                col.count("evaluations")
+                col.count("origin_limit_cases")
+                col.outcome("to_wire-origin:" + label + (":over" if total > 255 else ":fits"))
+                col.nontrivial(("origin-limit", tuple(relp), org))
+                for s_, w_ in probs:
+                    col.violation(s_, w_, case)
+
+
+WORKERS = {"origin_limit": w_origin_limit, "text1": w_text1, "textk": w_textk, "textpool": w_textpool, "parse": w_parse, "parse_short": w_parse_short,
            "parse_ddd": w_parse_ddd, "limits": w_limits, "compress": w_compress, "compress3": w_compress3,
            "wire": w_wire, "wire_short": w_wire_short, "graph": w_graph, "wire_long": w_wire_long}
 
@@ -995,6 +1054,7 @@ def run(ctx):
         for first in ["L", "T"] + list(range(graph_k)):
             tasks.append(("graph", graph_k, first, tuple(graph_bases)))
     tasks.append(("wire_long",))
+    tasks.append(("origin_limit",))
     ctx.rule = (
         "exhaustive products, one evaluation = one name / text / byte-string+offset pushed through every listed "
         "library path and compared with mc/refs/name.py.  Distinct non-trivial: text = distinct label tuple with at "
